@@ -4,3 +4,5 @@ pub mod iosim;
 pub mod iosim_driver;
 pub mod rgsim;
 pub mod rgsim_driver;
+pub mod dotsim;
+pub mod dotsim_driver;
